@@ -181,9 +181,13 @@ theorem nj_all (sub : Nat → Nat → Bool) : ∀ n, NJ sub n := by
           | none =>
             simp only
             apply exit1_nojump
-            cases ms with
-            | nil => exact ihB _ _ _ hf
-            | cons m2 ms2 => exact ihE _ _ _ (by simpa [freeJumpS] using hf)
+            cases m.bindRaises with
+            | some c => simp [NoJumpOut]
+            | none =>
+              simp only
+              cases ms with
+              | nil => exact ihB _ _ _ hf
+              | cons m2 ms2 => exact ihE _ _ _ (by simpa [freeJumpS] using hf)
     · intro h ss w hf
       cases ss with
       | nil => simp [Py.block, NoJumpOut]
@@ -344,14 +348,21 @@ theorem agree_all (cfg : Cfg) (sub : Nat → Nat → Bool) : ∀ n, Agree cfg su
             | some c => simp [lift, Res.toOut]
             | none =>
               simp only
-              cases ms with
-              | nil =>
-                simp only
-                rw [withFinish_single, ihB _ _ _ hb]
-              | cons m2 ms2 =>
+              cases m.bindRaises with
+              | some c =>
                 simp only
                 rw [withFinish_single]
-                rw [ihE h (.with_ (m2 :: ms2) b) _ (by simp [confS, hb, withOk, hn])]
+                simp [lift, Res.toOut]
+              | none =>
+                simp only
+                cases ms with
+                | nil =>
+                  simp only
+                  rw [withFinish_single, ihB _ _ _ hb]
+                | cons m2 ms2 =>
+                  simp only
+                  rw [withFinish_single]
+                  rw [ihE h (.with_ (m2 :: ms2) b) _ (by simp [confS, hb, withOk, hn])]
         | false =>
           simp only [Bool.false_eq_true, if_false]
           simp only [withOk, hn, Bool.false_or, Bool.and_eq_true, beq_iff_eq] at hw
@@ -360,7 +371,14 @@ theorem agree_all (cfg : Cfg) (sub : Nat → Nat → Bool) : ∀ n, Agree cfg su
           | [m], _, hall =>
             simp only [List.all_cons, List.all_nil, Bool.and_true, Option.isNone_iff_eq_none] at hall
             simp only [PS.initAll, List.foldl_cons, List.foldl_nil, PS.enterAll, hall]
-            rw [withFinish_single, ihB _ _ _ hb]
+            cases m.bindRaises with
+            | some c =>
+              simp only
+              rw [withFinish_single]
+              simp [lift, Res.toOut]
+            | none =>
+              simp only
+              rw [withFinish_single, ihB _ _ _ hb]
     · -- statement lists
       intro h ss w hc
       cases ss with
